@@ -1,10 +1,95 @@
 /-
   Driver ops for C06.
+    partial : {policy, env, impl:{keep, policy?}} → "dom=0|1 domI=0|1 agree" | "dom=0|1 domI=0|1 differ model=… impl=…"
+      (`dom` = the case lies in `partialDomain`, the domain of the keep / drop soundness theorems;
+       `domI` = it lies in `partialDomainI`, the domain of the ignore-widening theorem)
+      runs `partialPolicy` (Model/Partial.lean) on the policy and the partial environment (unknowns / ignore
+      markers arrive as the reserved entities) and compares the model's residual with the implementation's
+      residual AST after canonical rendering (`showExpr`; the message inside `__cedar::partialError(..)` is masked).
+    partial-show : {policy, env} → "dropped" | "kept <policy>"   (model output only, for diagnosis)
 -/
 import CedarGo.Driver.Ops.Core
+import CedarGo.Model.Partial
 namespace CedarGo.Driver
 open Lean CedarGo
 
-def c06Ops : List (String × Handler) := []
+def showPattern (p : Pattern) : String :=
+  "".intercalate (p.map fun c => (if c.wildcard then "*" else "") ++ "'" ++ hexBytes c.literal ++ "'")
+
+def BinOp.name : BinOp → String
+  | .and => "and" | .or => "or" | .eq => "eq" | .ne => "ne" | .lt => "lt" | .le => "le" | .gt => "gt" | .ge => "ge"
+  | .add => "add" | .sub => "sub" | .mul => "mul" | .in_ => "in" | .contains => "contains"
+  | .containsAll => "containsAll" | .containsAny => "containsAny" | .getTag => "getTag" | .hasTag => "hasTag"
+
+def UnOp.name : UnOp → String | .not => "not" | .neg => "neg" | .isEmpty => "isEmpty"
+
+def Var.name : Var → String
+  | .principal => "principal" | .action => "action" | .resource => "resource" | .context => "context"
+
+/-- canonical rendering of an expression: literals by `showValue` (sets sorted), everything else structural -/
+partial def showExpr : Expr → String
+  | .lit v => showValue v
+  | .var v => Var.name v
+  | .unop op e => s!"({UnOp.name op} {showExpr e})"
+  | .binop op l r => s!"({BinOp.name op} {showExpr l} {showExpr r})"
+  | .ite c t e => s!"(if {showExpr c} {showExpr t} {showExpr e})"
+  | .access e a => s!"(. {showExpr e} {hex a})"
+  | .has e a => s!"(has {showExpr e} {hex a})"
+  | .like e p => s!"(like {showExpr e} {showPattern p})"
+  | .is e ty => s!"(is {showExpr e} {hex ty})"
+  | .isIn e ty r => s!"(isIn {showExpr e} {hex ty} {showExpr r})"
+  | .set es => "(set " ++ " ".intercalate (es.map showExpr) ++ ")"
+  | .record kes => "(rec " ++ " ".intercalate (kes.map fun ke => s!"{hex ke.1}={showExpr ke.2}") ++ ")"
+  | .call fn args =>
+    if fn == partialErrorName && args.length == 1 then "(perr)"
+    else s!"(call {hex fn} " ++ " ".intercalate (args.map showExpr) ++ ")"
+
+def showUID (u : UID) : String := s!"{hex u.1}:{hex u.2}"
+
+def showScope : Scope → String
+  | .all => "all"
+  | .eq e => s!"(eq {showUID e})"
+  | .in_ e => s!"(in {showUID e})"
+  | .inSet es => "(inSet " ++ " ".intercalate (es.map showUID) ++ ")"
+  | .is t => s!"(is {hex t})"
+  | .isIn t e => s!"(isIn {hex t} {showUID e})"
+
+def showPolicy (p : Policy) : String :=
+  (if p.effect == .permit then "permit" else "forbid")
+    ++ " @[" ++ ",".intercalate (p.annotations.map fun a => s!"{hex a.1}={hex a.2}") ++ "]"
+    ++ s!" P={showScope p.principal} A={showScope p.action} R={showScope p.resource} pos={showPos p.position} "
+    ++ " ".intercalate (p.conditions.map fun c => (if c.1 then "when " else "unless ") ++ showExpr c.2)
+
+def showPartial : Option Policy → String
+  | none => "dropped"
+  | some p => "kept " ++ showPolicy p
+
+/-- the store comes from `envref` (or a whole `env`); `parts`, when present, overrides the four request parts -/
+def getEnvWithParts (envs : Envs) (j : Json) : D Env := do
+  let env ← getEnv envs j
+  match j.getObjVal? "parts" with
+  | .ok p =>
+    .ok { env with
+      principal := ← decValue (← field p "principal"), action := ← decValue (← field p "action"),
+      resource := ← decValue (← field p "resource"), context := ← decValue (← field p "context") }
+  | .error _ => .ok env
+
+def opPartialShow : Handler := fun envs j => do
+  let p ← decPolicy (← field j "policy")
+  let env ← getEnvWithParts envs j
+  .ok (showPartial (partialPolicy env p))
+
+def opPartial : Handler := fun envs j => do
+  let p ← decPolicy (← field j "policy")
+  let env ← getEnvWithParts envs j
+  let impl ← field j "impl"
+  let keep ← jBool (← field impl "keep")
+  let implRes ← if keep then do let q ← decPolicy (← field impl "policy"); pure (some q) else pure none
+  let m := showPartial (partialPolicy env p)
+  let i := showPartial implRes
+  let dom := (if partialDomain env p then "dom=1" else "dom=0") ++ (if partialDomainI env p then " domI=1" else " domI=0")
+  .ok (dom ++ " " ++ (if m == i then "agree" else s!"differ model={m} impl={i}"))
+
+def c06Ops : List (String × Handler) := [("partial", opPartial), ("partial-show", opPartialShow)]
 
 end CedarGo.Driver
